@@ -722,6 +722,14 @@ func TestC13(t *testing.T) {
 			c.Fail(ev.Sig{"op": "bubble-leak"}, nil, nil, "goroutines left blocked: %s", leak)
 		}
 	})
+	rec.Suite("two-connections-one-client", 8, func(c *ev.Case) {
+		conc, budget := c.I%2 == 1, uint(c.I/2)
+		c.Class("two-connections-one-client/concurrent-dials=%v/N=%d", conc, budget)
+		leak := runBubbleWD(t, rec, c, 60*time.Second, func() { runTwoConnections(c, ctx, conc, budget) })
+		if leak != "" && !c.Failed() {
+			c.Fail(ev.Sig{"op": "bubble-leak"}, nil, nil, "goroutines left blocked: %s", leak)
+		}
+	})
 	rec.Suite("client-write-faults", 4*3*4, func(c *ev.Case) {
 		N, k, errs := c.I%4, 1+(c.I/4)%3, 1+(c.I/12)%4
 		c.Class("write-faults/N=%d/first=%d/errors=%d", N, k, errs)
@@ -825,4 +833,97 @@ func runHugeBudget(c *ev.Case, ctx *lib.Ctx, prop string, budget uint, cerAt, dw
 		c.Event("dwr_rounds", r)
 	}
 	c.Event("huge_budget_runs", 1)
+}
+
+// runTwoConnections: one sm.Client used for two connections (nothing in its API says it may
+// not be), both peers answer the CER and every DWR with success. Neither connection is closed
+// by the client, and each keeps being probed.
+func runTwoConnections(c *ev.Case, ctx *lib.Ctx, concurrentDials bool, budget uint) {
+	sig := func(op string) ev.Sig {
+		return ev.Sig{"op": op, "how": "two-connections-through-one-client", "concurrent_dials": concurrentDials}
+	}
+	settings := &sm.Settings{OriginHost: "cli.local", OriginRealm: "realm.local", VendorID: 13, ProductName: "verif",
+		HostIPAddresses: []datatype.Address{datatype.Address([]byte{192, 0, 2, 9})}}
+	machine := sm.New(settings)
+	cli := &sm.Client{Dict: ctx.Parser, Handler: machine, MaxRetransmits: budget, RetransmitInterval: time.Second,
+		EnableWatchdog: true, WatchdogInterval: 5 * time.Second,
+		AuthApplicationID: []*diam.AVP{diam.NewAVP(258, 0x40, 0, datatype.Unsigned32(4))}}
+	var smu sync.Mutex
+	rounds := [2]int{}
+	mcs := [2]*memnet.Conn{memnet.NewConn(), memnet.NewConn()}
+	for i := range mcs {
+		i, mc := i, mcs[i]
+		mc.Local = memnet.Addr{Net: "tcp", Str: fmt.Sprintf("10.1.2.%d:4000", i+1)}
+		var last []byte
+		mc.OnWrite = func(w memnet.WriteRec) {
+			msgs, _ := peer.SplitMessages(w.Data)
+			if len(msgs) != 1 {
+				return
+			}
+			h := peer.Header(msgs[0])
+			switch {
+			case h.Code == 257 && h.Flags&0x80 != 0:
+				mc.Feed(peer.StdCEA(h.HopByHop, h.EndToEnd, 2001, 4))
+			case h.Code == 280 && h.Flags&0x80 != 0:
+				smu.Lock()
+				if last == nil || !bytes.Equal(last, msgs[0]) {
+					last = append([]byte(nil), msgs[0]...)
+					rounds[i]++
+				}
+				smu.Unlock()
+				mc.Feed(peer.DWA(h.HopByHop, h.EndToEnd, 2001))
+			}
+		}
+	}
+	var conns [2]diam.Conn
+	var errs [2]error
+	if concurrentDials {
+		var wg sync.WaitGroup
+		for i := range mcs {
+			wg.Add(1)
+			go func(i int) {
+				defer wg.Done()
+				conns[i], errs[i] = cli.NewConn(mcs[i], "peer:3868")
+			}(i)
+		}
+		wg.Wait()
+	} else {
+		for i := range mcs {
+			conns[i], errs[i] = cli.NewConn(mcs[i], "peer:3868")
+			time.Sleep(700 * time.Millisecond)
+		}
+	}
+	defer func() {
+		for _, cn := range conns {
+			if cn != nil {
+				cn.Close()
+			}
+		}
+		time.Sleep(10 * time.Second)
+		synctest.Wait()
+	}()
+	desc := fmt.Sprintf("one sm.Client (watchdog every 5s, MaxRetransmits=%d, RetransmitInterval 1s) used for two connections, dials at the same time=%v; both peers answer the CER and every DWR with success", budget, concurrentDials)
+	for i := range conns {
+		if errs[i] != nil || conns[i] == nil {
+			c.Fail(sig("dial-outcome"), nil, nil, "dial %d failed: %v; %s", i+1, errs[i], desc)
+			return
+		}
+	}
+	time.Sleep(62 * time.Second)
+	synctest.Wait()
+	smu.Lock()
+	r := rounds
+	smu.Unlock()
+	for i, mc := range mcs {
+		if mc.CloseCount() != 0 {
+			c.Fail(sig("closed-responsive-peer"), nil, nil, "connection %d was closed by the client after %d watchdog rounds (the other one saw %d) although its peer answered every request; %s", i+1, r[i], r[1-i], desc)
+			return
+		}
+		if r[i] < 8 {
+			c.Fail(sig("round-count"), nil, nil, "connection %d saw %d watchdog rounds in 62 s; %s", i+1, r[i], desc)
+			return
+		}
+	}
+	c.Event("dwr_rounds", r[0]+r[1])
+	c.Event("two_connection_runs", 1)
 }
